@@ -406,6 +406,9 @@ func runHistory(c *Ctx, caseIdx int, rng *rand.Rand, o *HistOpts) *HistRun {
 		}
 		obs := fromDump(d)
 		hr.Issues = append(hr.Issues, so.Issues...)
+		if so.FormerContractTransfers > 0 {
+			c.Count("transfers-to-former-contract-addresses", so.FormerContractTransfers)
+		}
 		zeroHash := strings.Repeat("0", 64)
 		lostGenesis := int64(0)
 		if h == 1 {
@@ -441,6 +444,11 @@ func runHistory(c *Ctx, caseIdx int, rng *rand.Rand, o *HistOpts) *HistRun {
 					c.Count("warm-up-reward-differences-inside-admissible-range", 1)
 					continue
 				}
+			}
+			if df.Area == "acct.code" && m.Ref != nil && !m.Ref.HasCode(df.Key) {
+				// the marker "this address is a contract" of an address that holds no code (any more): not pinned by any property
+				c.Count("contract-markers-of-codeless-addresses-not-compared", 1)
+				continue
 			}
 			if (df.Area == "proposal" || df.Area == "frozenprop") && so.Ambiguous[df.Key] {
 				c.Count("ambiguous-proposal-states-skipped", 1)
